@@ -77,6 +77,8 @@ class AppRun:
                     mark = len(self.trace)
                     try:
                         r = app.run_forever(**spec.get("run_kwargs", {}))
+                        if spec.get("after_run"):
+                            spec["after_run"](app)  # external dispatcher: the event loop runs after run_forever has registered everything
                         out.append(("ret", r))
                     except BaseException as e:  # noqa
                         if isinstance(e, (S.SimAbort,)):
@@ -95,7 +97,10 @@ class AppRun:
             if closer is not None:
                 def closer_body():
                     # becomes runnable only once run_forever has set keep_running (a close() before the run has started is not "during the run")
-                    sc.block(lambda: app.keep_running or any(t[1] == "--run-returned--" for t in self.trace), None, "closer-start")
+                    if closer.get("start_after"):
+                        sc.block(lambda: any(t[1] == closer["start_after"] for t in self.trace) or any(t[1] == "--run-returned--" for t in self.trace), None, "closer-start")
+                    else:
+                        sc.block(lambda: app.keep_running or any(t[1] == "--run-returned--" for t in self.trace), None, "closer-start")
                     if closer.get("delay"):
                         sc.block(lambda: False, sc.now + closer["delay"], "closer-delay")
                     self.trace.append((sc.now, "--closer-calls-close--", ()))
